@@ -207,7 +207,7 @@ def _(prop, case, v):
         return False
     if v.get("sig") not in ("get-mismatch", "delete-old-item", "search-content", "index-content", "pages-content", "batchget-responses",
                             "cond-fail-item", "sdk-differ:get", "sdk-differ:query", "sdk-differ:pages", "sdk-differ:update", "sdk-differ:delete",
-                            "sdk-differ:batchGet", "pages-lost-after-delete"):
+                            "sdk-differ:batchGet", "pages-lost-after-delete", "own-lek-rejected"):
         return False
     step = v.get("step", 10 ** 9)
     if any(any(has_empty(av) for _, av in it) for it in case_items(case, step)):
